@@ -151,7 +151,14 @@ class Model:
                 sc.wfs_covariance = slow
                 if max(delays) > 0 and self.obj.threads >= 2:
                     self.flags.add("delayed_real")
-            got = np.array(self.obj.make_covariance_matrix())
+            ret = self.obj.make_covariance_matrix()
+            got = np.array(ret)
+            if self.builds % 2 == 0 and isinstance(ret, np.ndarray) and ret.flags.writeable:
+                # the caller owns what it was handed (adds noise to the diagonal, converts units in place ...): nothing of
+                # that may come back from the next build
+                ret *= np.float32(-2.5)
+                ret += np.float32(1.0)
+                self.flags.add("returned_matrix_edited_in_place")
         finally:
             sc.multiprocessing, sc.wfs_covariance = real_mp, real_wc
             for pl in pools:
@@ -280,6 +287,34 @@ def order_body(ctx, case):
     replay_history(ctx, history)
 
 
+# ------------------------------------------------------------------ the other process start methods
+
+def start_cases(tier):
+    m2 = [[[1, 0], [1, 1]], [[1, 1], [0, 1]]]
+    c2 = dict(BASE, n_wfs=2, pupil_masks=m2, subap_diameters=[2.1, 2.1], gs_altitudes=[0, 90e3], gs_positions=[[0.0, 0.0], [20.0, -10.0]], wfs_wavelengths=[500e-9, 589e-9])
+    c3 = dict(BASE, n_wfs=3, pupil_masks=m2 + [[[0, 1, 1], [1, 1, 1], [1, 1, 0]]], subap_diameters=[2.1, 2.1, 1.4], gs_altitudes=[0, 0, 90e3], gs_positions=[[0.0, 0.0], [20.0, -10.0], [-15.0, 30.0]], wfs_wavelengths=[500e-9, 589e-9, 1.65e-6])
+    return [{"method": m, "cfg": c, "threads": t} for m in ("spawn", "forkserver") for c, t in ((c2, [2, 3]), (c3, [2, 5]))]
+
+
+def start_body(ctx, case):
+    """'Any number of worker processes' under the start methods other than fork (workers that import the library afresh and
+    get their task through pickle): the same bit-identical matrix, also on a rebuild.  Runs in a fresh interpreter."""
+    import json, os, subprocess, sys
+    from ..core import VERIF_DIR, REPO_DIR, HarnessError
+    ctx.case({"method": case["method"], "n_wfs": case["cfg"]["n_wfs"], "threads": case["threads"]}, nontrivial=True, classes=[case["method"]])
+    env = dict(os.environ, PYTHONPATH=VERIF_DIR, VERIF_REPO=REPO_DIR, NUMBA_NUM_THREADS="1", OMP_NUM_THREADS="1")
+    p = subprocess.run([sys.executable, "-m", "vt.startmethod", case["method"]], input=json.dumps({"cfg": case["cfg"], "threads": case["threads"]}), capture_output=True, text=True, env=env, cwd=VERIF_DIR, timeout=900)
+    if p.returncode != 0:
+        raise HarnessError("start-method runner failed: %s" % p.stderr[-500:])
+    for r in json.loads(p.stdout):
+        if "error" in r:
+            if not r["in_library"]:
+                raise HarnessError("start-method runner: %s" % r["error"])
+            ctx.require(False, "building with %d worker processes under the %r start method raised %s" % (r["threads"], case["method"], r["error"]))
+        ctx.require(r["identical"], "build with %d worker processes under the %r start method is not bit-identical to the single-process build (%d entries differ)" % (r["threads"], case["method"], r["differing"]))
+        ctx.require(r["rebuild_identical"], "rebuild with %d worker processes under the %r start method is not bit-identical to the single-process build" % (r["threads"], case["method"]))
+
+
 def self_test():
     # the fake pool returns what the real pool returns for an order-insensitive function
     fp = FakePool(3, schedule={"style": "random", "seed": 5})
@@ -293,4 +328,5 @@ LAWS = [
     machine_law("history_fake", make_machine(0), replay_history, {"quick": 50, "thorough": 300}, {"quick": 9, "thorough": 14}, shards={"quick": 4, "thorough": 16}),
     machine_law("history_real", make_machine(60), replay_history, {"quick": 8, "thorough": 60}, {"quick": 7, "thorough": 10}, shards={"quick": 4, "thorough": 8}),
     plain_law("all_task_orders", order_cases, order_body, shards={"quick": 4, "thorough": 16}),
+    plain_law("start_methods", start_cases, start_body, shards={"quick": 4, "thorough": 4}),
 ]
